@@ -52,13 +52,13 @@ pub fn check() -> Check {
         spec: CheckSpec {
             prop: "C16",
             level: "exploration",
-            rule: "execution = real node N of cluster c in {0,1,7,65535} (gossip server, handle_changes loop, broadcast runtime_loop, handle_sync), real friend node F (same cluster), real node X as scripted foreign peer, 2-4 UDP sockets registered in N's member table as members of other clusters (some with ring-0 round-trip samples); phases in seeded order and number: (A) uni streams from X and F carrying 1-4 change frames each, every frame declaring its own cluster id (other ids, c itself, or truncated before the id = 0), closed by a marker frame of N's cluster so that the stream's handling is observable; (B) sync sessions opened by X declaring every kind of id, first server message recorded; (C) outgoing: local writes on N (broadcast) and handle_sync rounds with the mixed member table; (D) N's cluster id switched at run time with X's and F's connections open, then A-C again against the new id; oracle: a row carried by a frame is in N's table iff the frame declared N's current cluster; a sync session declaring another cluster gets Rejection(DifferentCluster) as first message and nothing else; no packet ever reaches a foreign member's socket; non-trivial = execution with foreign and same-cluster frames, foreign and same-cluster sessions and outgoing traffic observed at the friend; distinct by hash of the schedule",
+            rule: "execution = real node N of cluster c in {0,1,7,65535} (gossip server, handle_changes loop, broadcast runtime_loop, handle_sync), real friend node F (same cluster), real node X as scripted foreign peer, 2-4 UDP sockets registered in N's member table as members of other clusters (some with ring-0 round-trip samples), in half of the executions one more that was first announced as a member of N's own cluster and then again with a newer identity, another address and another cluster; phases in seeded order and number: (A) uni streams from X and F carrying 1-4 change frames each, every frame declaring its own cluster id (other ids, c itself, or truncated before the id = 0), closed by a marker frame of N's cluster so that the stream's handling is observable; (B) sync sessions opened by X declaring every kind of id, first server message recorded; (C) outgoing: local writes on N (broadcast) and handle_sync rounds with the mixed member table; (D) N's cluster id switched at run time with X's and F's connections open, then A-C again against the new id; oracle: a row carried by a frame is in N's table iff the frame declared N's current cluster; a sync session declaring another cluster gets Rejection(DifferentCluster) as first message and nothing else; no packet ever reaches a foreign member's socket; non-trivial = execution with foreign and same-cluster frames, foreign and same-cluster sessions and outgoing traffic observed at the friend; distinct by hash of the schedule",
             assumptions: &[
                 "members are put into N's table directly (the SWIM exchange itself is not run); foreign members are UDP sockets, so a contact shows as a QUIC Initial packet",
                 "the admin command's effect is reproduced with Agent::set_cluster_id (the admin socket lives in the binary crate)",
             ],
             min_nontrivial: 10,
-            required_stats: &["uni.frames_foreign", "uni.frames_same_cluster", "uni.frames_truncated", "uni.rows_applied", "sync.sessions_foreign", "sync.sessions_same_cluster", "sync.rejections_seen", "outgoing.friend_received_broadcast", "outgoing.synced_from_friend", "cluster_id_switches", "foreign_sockets"],
+            required_stats: &["uni.frames_foreign", "uni.frames_same_cluster", "uni.frames_truncated", "uni.rows_applied", "sync.sessions_foreign", "sync.sessions_same_cluster", "sync.rejections_seen", "outgoing.friend_received_broadcast", "outgoing.synced_from_friend", "cluster_id_switches", "foreign_sockets", "members_renewed_into_another_cluster"],
         },
         budget: (70, 900),
         workers: (10, 14),
@@ -397,6 +397,33 @@ pub async fn one_execution(seed: u64) -> Result<ExecOut, String> {
                 m.add_rtt(*addr, Duration::from_millis(1));
             }
         }
+    }
+    // a member of N's own cluster that is announced again with a newer identity: new address,
+    // and now declaring another cluster; from then on it is a foreign member like the others
+    if rng.random_range(0..2) == 0 {
+        let old = tokio::net::UdpSocket::bind("127.0.0.1:0").await.map_err(|e| e.to_string())?;
+        let old_addr = old.local_addr().map_err(|e| e.to_string())?;
+        let sock = tokio::net::UdpSocket::bind("127.0.0.1:0").await.map_err(|e| e.to_string())?;
+        let addr = sock.local_addr().map_err(|e| e.to_string())?;
+        let count = Arc::new(AtomicU64::new(0));
+        let c2 = count.clone();
+        sink_tasks.push(tokio::spawn(async move {
+            let _old = old;
+            let mut buf = [0u8; 2048];
+            while sock.recv_from(&mut buf).await.is_ok() {
+                c2.fetch_add(1, Ordering::SeqCst);
+            }
+        }));
+        let who = ActorId(Uuid::from_bytes([0xE1; 16]));
+        let moved_to = never_joined[rng.random_range(0..never_joined.len())];
+        let mut m = n.agent.members().write();
+        m.add_member(&Actor::new(who, old_addr, Timestamp::from(100u64), ClusterId(c)));
+        m.add_rtt(old_addr, Duration::from_millis(1));
+        m.add_member(&Actor::new(who, addr, Timestamp::from(200u64), ClusterId(moved_to)));
+        m.add_rtt(addr, Duration::from_millis(1));
+        sinks.push((addr, count, moved_to));
+        ex.stat("members_renewed_into_another_cluster", 1);
+        ex.schedule.push(format!("member renewed {c}->{moved_to}"));
     }
     // the friend holds data of its own
     let (st, _) = f.tx(vec![Statement::WithParams("INSERT INTO t1 (id, a) VALUES (?, ?)".into(), vec![777i64.into(), "from-friend".into()])]).await;
